@@ -101,7 +101,7 @@ def streams(ctx):
                       model_ops=lambda ops, impl: ["# " + o for o in ops],
                       judge=lambda ops, impl, mops, model: [], timeout=600,
                       classify=lambda o, r: "ERR" if r.startswith("ERR") else "ok"))
-    # WP safety: P2.cpp:109 at wide magnitudes (off by default: it reports finding F9 on the pinned tree; PCV_SAFETY_P2WIDE=1)
+    # WP safety: P2.cpp:109 at wide magnitudes (finding F9, fixed in /repo 8cccffb; regression guard, PCV_SAFETY_P2WIDE=0 disables)
     from .. import safety
     out += safety.streams(Ctx(ctx.pid + "/safety", ctx.tier, ctx.seed))
     return out
